@@ -206,10 +206,10 @@ type codeInfo struct {
 }
 
 var codes = []codeInfo{
-	{conn.DialResultCodeEACCES, "EACCES", []byte{2}},             // "denied by policy" = not allowed by ruleset
-	{conn.DialResultCodeENETDOWN, "ENETDOWN", []byte{3, 1}},      // no exact counterpart
-	{conn.DialResultCodeENETUNREACH, "ENETUNREACH", []byte{3}},   // exact
-	{conn.DialResultCodeENETRESET, "ENETRESET", []byte{3, 1}},    // no exact counterpart
+	{conn.DialResultCodeEACCES, "EACCES", []byte{2}},           // "denied by policy" = not allowed by ruleset
+	{conn.DialResultCodeENETDOWN, "ENETDOWN", []byte{3, 1}},    // no exact counterpart
+	{conn.DialResultCodeENETUNREACH, "ENETUNREACH", []byte{3}}, // exact
+	{conn.DialResultCodeENETRESET, "ENETRESET", []byte{3, 1}},  // no exact counterpart
 	{conn.DialResultCodeECONNABORTED, "ECONNABORTED", []byte{1, 5}},
 	{conn.DialResultCodeECONNRESET, "ECONNRESET", []byte{1, 5}},
 	{conn.DialResultCodeETIMEDOUT, "ETIMEDOUT", []byte{1, 4, 6}},
